@@ -247,7 +247,7 @@ def _execute(sc, sim, out):
     if not sc['tail']['final_newline'] and sc['tail']['terminator'] is None:
         out.probe('no_final_newline')
     # the object-interface twin
-    tw = pipe.call(pipe.twin_records, W, d, sc, [source_line(s) for s in expected])
+    tw = pipe.call(pipe.twin_records, W, d, sc, [source_line(s) for s in expected], specs=expected)
     if tw[0] != 'ok':
         out.discarded = 'setup-twin:' + pipe.exc_name(tw)
         return
